@@ -78,11 +78,11 @@ impl Ctx {
         self.count(&format!("op.{}", op));
         // translator tie: the same request also goes to the definition REGENERATED from the Rust text
         // (lean/Generated/Kernels.lean, lean/Generated/TrainKernels.lean; op `gen_<name>`), with the same expected answer
-        const KERNEL_OPS: [&str; 19] = ["fc_set_cur_max", "fc_solve", "gen_set_cur_max", "gen_req", "edrv_set_cur_max",
+        const KERNEL_OPS: [&str; 20] = ["fc_set_cur_max", "fc_solve", "gen_set_cur_max", "gen_req", "edrv_set_cur_max",
             "edrv_set_regen_max", "edrv_req", "res_set_cur_max", "res_solve", "min_speed",
             // train layer (lean/Generated/TrainKernels.lean, Driver/OpsGenTrain.lean)
             "update_res", "ss_required_pwr", "ss_integrate", "ss_step", "fric_set_cur_max", "sl_required_pwr", "sl_step",
-            "walk_cond", "scaling_factor"];
+            "walk_cond", "walk_stuck", "scaling_factor"];
         if KERNEL_OPS.contains(&op) {
             self.op(props, &format!("gen_{}", op), args, answer);
         }
